@@ -453,6 +453,44 @@ def drops_read_nothing(ctx, rule='C14.drop-reads-no-map'):
     return res
 
 
+def tobytes_bounded(ctx, rule='C14.tobytes-bounded'):
+    """a key or value handed to the library by reference may die as soon as the call returns unless the signature says otherwise: an impl `ToBytes<'a> for &T` whose
+    reference is not itself `&'a` must COPY (or clone an owner), never build a borrowed `Bytes::Slice` out of the referent.  The borrow checker enforces this unless the
+    impl launders the lifetime through a raw pointer (`from_raw_parts`, `transmute`), which is what this rule looks for"""
+    import json
+    res = []
+    F = ctx.facts
+    n = 0
+    for fn in sorted(F.fns, key=lambda g: g.path):
+        if not (fn.trait and fn.trait.endswith('ToBytes') and fn.name == 'to_bytes') or 'sig' not in fn.j:
+            continue
+        n += 1
+        inp, out = fn.j['sig']['inputs'][0], fn.j['sig']['output']
+        r_out = [a.get('r') for a in out.get('args', []) if isinstance(a, dict) and 'r' in a]
+        bounded = inp.get('k') == 'ref' and inp.get('r') in r_out and inp.get('r') not in ("'_", None)
+        X = ctx.x(fn)
+        launder = None
+        for bb in sorted(X.reachable_blocks()):
+            t = X.term(bb)
+            c = callee_of(t) if t['k'] == 'call' else None
+            if c and last_seg(strip_generics(c['path'])) in ('from_raw_parts', 'from_raw_parts_mut', 'transmute', 'transmute_copy', 'from_utf8_unchecked'):
+                launder = (bb, last_seg(strip_generics(c['path'])))
+            for st in X.blocks[bb]['stmts']:
+                if st['k'] == 'assign' and st['rv']['k'] == 'cast' and st['rv'].get('ck') == 'Transmute' and not any(x.startswith('macro:') for x in st.get('span', {}).get('exp', [])):
+                    launder = (bb, 'transmute')
+        if launder and not bounded:
+            res.append(bad(rule, '%s | borrowed bytes with a laundered lifetime (%s)' % (fn.qual, launder[1]),
+                           '%s takes its argument by a reference that is not bound to the lifetime of the bytes it returns and builds them with `%s` at %s: the transaction keeps a '
+                           'pointer into memory the caller may free right after the call, reads garbage and writes it to the file' % (fn.qual, launder[1], X.loc(launder[0])),
+                           where=X.loc(launder[0])))
+        else:
+            res.append(ok(rule, '%s: %s' % (fn.qual, 'the reference carries the output lifetime' if bounded else 'no lifetime laundering; the borrow checker bounds what it returns'), sites=1))
+    f = floor(rule, 'ToBytes impls', n, 8)
+    if f:
+        res.append(f)
+    return res
+
+
 def classify_output(ctx, fn, R, borrowing):
     """'bounded' : some output region is (bounded by) the transaction borrow  -> keeping the result past the transaction must be rejected
        'plain'   : the output mentions no region at all                          -> must compile
@@ -576,6 +614,7 @@ def run(ctx, tier):
     results += private_producers(ctx)
     results += type_facts(ctx)
     results += drops_read_nothing(ctx)
+    results += tobytes_bounded(ctx)
     import c03
     results += c03.snapshot_fixed(ctx, rule='C14.snapshot-fixed')
     ctx.stats['witness_programs'] = len(rows)
